@@ -6,11 +6,13 @@
 package c17
 
 import (
+	"context"
 	"encoding/json"
 	"fmt"
 	"io"
 	"net/http"
 	"net/http/httptest"
+	"nhooyr.io/websocket"
 	"path/filepath"
 	"strings"
 	"sync"
@@ -322,10 +324,156 @@ func TestC17(t *testing.T) {
 	w.Write([]vtrace.Rec{{"ev": "reset", "scenario": 1, "cfg": "matrix"}})
 	matrix(w, res)
 	res.Exhaustive = true
+	wsFamily(w, res)
 	races(w, res, vres.Pick(12, 120))
 	sidsBatch(w, res, vres.Pick(100000, 1000000))
 	w.Close()
 	if err := res.Write(out, "result.json"); err != nil {
 		t.Fatal(err)
 	}
+}
+
+// ---- real websocket handshakes naming a session --------------------------------------
+
+// wsFamily: for each state of the named session (unknown, closed, live on polling, live and already
+// upgraded, live and opened directly on websocket) a real websocket handshake is attempted; when it is
+// accepted the attacker's script continues (probe, UPGRADE packet). Afterwards the session is looked at.
+func wsFamily(w *vtrace.Writer, res *vres.Result) {
+	for _, state := range []string{"unknown", "closed", "polling", "upgraded", "wsdirect"} {
+		for rep := 0; rep < 2; rep++ {
+			wsOne(w, res, state, rep)
+		}
+	}
+}
+
+func wsOne(w *vtrace.Writer, res *vres.Result, state string, rep int) {
+	var mu sync.Mutex
+	var ssock eio.ServerSocket
+	var sClosed bool
+	var fromClient int64
+	newsock := int64(0)
+	cfg := &eio.ServerConfig{PingInterval: 20 * time.Second, PingTimeout: 20 * time.Second}
+	srv := eio.NewServer(func(s eio.ServerSocket) *eio.Callbacks {
+		atomic.AddInt64(&newsock, 1)
+		mu.Lock()
+		ssock = s
+		mu.Unlock()
+		return &eio.Callbacks{
+			OnPacket: func(ps ...*parser.Packet) {
+				for _, p := range ps {
+					if p.Type == parser.PacketTypeMessage {
+						atomic.AddInt64(&fromClient, 1)
+					}
+				}
+			},
+			OnClose: func(eio.Reason, error) { mu.Lock(); sClosed = true; mu.Unlock() },
+		}
+	}, cfg)
+	if err := srv.Run(); err != nil {
+		res.Inconclusive("ws", err.Error(), 0)
+		return
+	}
+	ts := httptest.NewServer(srv)
+	defer func() { srv.Close(); ts.CloseClientConnections(); ts.Close() }()
+	sid := "AAAAAAAAAAAAAAAAAAAA"
+	var csock eio.ClientSocket
+	var toClient int64
+	if state != "unknown" {
+		transports := map[string][]string{"closed": {"polling"}, "polling": {"polling"}, "upgraded": {"polling", "websocket"}, "wsdirect": {"websocket"}}[state]
+		upgraded := make(chan struct{}, 1)
+		cs, err := eio.Dial(ts.URL, &eio.Callbacks{OnPacket: func(ps ...*parser.Packet) {
+			for _, p := range ps {
+				if p.Type == parser.PacketTypeMessage {
+					atomic.AddInt64(&toClient, 1)
+				}
+			}
+		}}, &eio.ClientConfig{Transports: transports, UpgradeDone: func(string) { upgraded <- struct{}{} },
+			WebSocketDialOptions: &websocket.DialOptions{CompressionMode: websocket.CompressionDisabled}})
+		if err != nil {
+			res.Inconclusive("ws", err.Error(), 0)
+			return
+		}
+		csock = cs
+		defer cs.Close()
+		sid = cs.ID()
+		if state == "upgraded" {
+			select {
+			case <-upgraded:
+			case <-time.After(4 * time.Second):
+				res.Inconclusive("ws", "upgrade did not complete", 0)
+				return
+			}
+			time.Sleep(30 * time.Millisecond)
+		}
+		if state == "closed" {
+			cs.Close()
+			time.Sleep(50 * time.Millisecond)
+		}
+	}
+	mu.Lock()
+	ss := ssock
+	mu.Unlock()
+	before := ""
+	if ss != nil && state != "closed" {
+		before = ss.TransportName()
+	}
+	n0 := atomic.LoadInt64(&newsock)
+	// the request under test
+	ctx, cancel := context.WithTimeout(context.Background(), 3*time.Second)
+	defer cancel()
+	wsURL := "ws" + strings.TrimPrefix(ts.URL, "http") + "/?EIO=4&transport=websocket&sid=" + sid
+	conn, resp, err := websocket.Dial(ctx, wsURL, &websocket.DialOptions{CompressionMode: websocket.CompressionDisabled})
+	status := 0
+	if resp != nil {
+		status = resp.StatusCode
+	}
+	if err == nil && conn != nil {
+		// accepted: go on as an upgrading client would
+		conn.Write(ctx, websocket.MessageText, []byte("2probe"))
+		rctx, rc := context.WithTimeout(context.Background(), 500*time.Millisecond)
+		conn.Read(rctx)
+		rc()
+		conn.Write(ctx, websocket.MessageText, []byte("5"))
+		time.Sleep(80 * time.Millisecond)
+		if state != "polling" {
+			defer conn.Close(websocket.StatusNormalClosure, "")
+		}
+	}
+	time.Sleep(40 * time.Millisecond)
+	rec := vtrace.Rec{"ev": "wsreq", "sid": state, "status": status, "newsock": atomic.LoadInt64(&newsock) - n0,
+		"transportBefore": before, "transportAfter": "", "sessionClosed": false, "stillWorks": false, "rep": rep}
+	if ss != nil && state != "closed" && state != "unknown" {
+		rec["transportAfter"] = ss.TransportName()
+		mu.Lock()
+		rec["sessionClosed"] = sClosed
+		mu.Unlock()
+		if state != "polling" {
+			// the session's own connection still carries traffic both ways
+			c0, s0 := atomic.LoadInt64(&toClient), atomic.LoadInt64(&fromClient)
+			p1, _ := parser.NewPacket(parser.PacketTypeMessage, false, []byte("to-client"))
+			ss.Send(p1)
+			p2, _ := parser.NewPacket(parser.PacketTypeMessage, false, []byte("to-server"))
+			csock.Send(p2)
+			ok := rigWait(2*time.Second, func() bool {
+				return atomic.LoadInt64(&toClient) > c0 && atomic.LoadInt64(&fromClient) > s0
+			})
+			rec["stillWorks"] = ok
+		}
+	}
+	if conn != nil && state == "polling" {
+		conn.Close(websocket.StatusNormalClosure, "")
+	}
+	w.Write([]vtrace.Rec{rec})
+	res.Case(fmt.Sprint("ws", state, rep), true)
+}
+
+func rigWait(d time.Duration, cond func() bool) bool {
+	dl := time.Now().Add(d)
+	for time.Now().Before(dl) {
+		if cond() {
+			return true
+		}
+		time.Sleep(time.Millisecond)
+	}
+	return cond()
 }
